@@ -473,6 +473,9 @@ where
                 unsafe { (&mut *value.lru.metadata.get(), &mut *value.durability.get()) };
             let index = self.database_key_index(metadata.id);
 
+            #[cfg(salsa_rs_salsa_verif)]
+            let verif_before = (metadata.last_interned_at, *durability, metadata.id);
+
             // Validate the value in this revision to avoid reuse.
             if metadata.last_interned_at < current_revision {
                 metadata.last_interned_at = current_revision;
@@ -523,6 +526,19 @@ where
             // by *our query*, so the same considerations apply.
             report_tracked_read_if_reusable::<C>(zalsa_local, index, current_revision, *durability);
 
+            #[cfg(salsa_rs_salsa_verif)]
+            self.verif_record_intern(
+                "fast",
+                shard_index,
+                shard,
+                hash,
+                current_revision,
+                metadata.id,
+                zalsa_local.active_query().map(|(_, stamp)| stamp.durability),
+                Some(verif_before),
+                (metadata.last_interned_at, *durability),
+            );
+
             return metadata.id;
         }
 
@@ -554,6 +570,16 @@ where
                 shard_index,
                 hash,
             );
+        };
+
+        // SAFETY: We hold the lock for the shard containing the value.
+        #[cfg(salsa_rs_salsa_verif)]
+        let verif_before = unsafe {
+            (
+                (*value.lru.metadata.get()).last_interned_at,
+                *value.durability.get(),
+                slot.old_id,
+            )
         };
 
         // Record the durability of the current query on the interned value.
@@ -651,6 +677,19 @@ where
             })
         });
 
+        #[cfg(salsa_rs_salsa_verif)]
+        self.verif_record_intern(
+            "reuse",
+            shard_index,
+            shard,
+            hash,
+            current_revision,
+            slot.new_id,
+            zalsa_local.active_query().map(|(_, stamp)| stamp.durability),
+            Some(verif_before),
+            (last_interned_at, durability),
+        );
+
         slot.new_id
     }
 
@@ -723,6 +762,19 @@ where
                 revision: current_revision,
             })
         });
+
+        #[cfg(salsa_rs_salsa_verif)]
+        self.verif_record_intern(
+            "cold",
+            shard_index,
+            shard,
+            hash,
+            current_revision,
+            id,
+            zalsa_local.active_query().map(|(_, stamp)| stamp.durability),
+            None,
+            (last_interned_at, durability),
+        );
 
         id
     }
@@ -1052,6 +1104,155 @@ where
     }
 }
 
+/// Verification hook H5: one linearisation record per `intern_id` / `maybe_changed_after`,
+/// taken while the shard lock is held.
+#[cfg(salsa_rs_salsa_verif)]
+impl<C> IngredientImpl<C>
+where
+    C: Configuration,
+{
+    fn verif_common(&self, shard: &IngredientShard, current_revision: Revision) -> String {
+        let lru: Vec<String> = shard
+            .lru
+            .iter()
+            // SAFETY: The caller holds the lock of `shard`.
+            .map(|entry| unsafe { (*entry.metadata.get()).id.index().to_string() })
+            .collect();
+        let queue: Vec<String> = self
+            .revision_queue
+            .revisions
+            .iter()
+            .map(|revision| revision.load().as_usize().to_string())
+            .collect();
+        let revisions = if C::REVISIONS == IMMORTAL {
+            "max".to_string()
+        } else {
+            C::REVISIONS.get().to_string()
+        };
+        format!(
+            "ing={} name={} t={:?} rev={} revisions={} nshards={} queue=[{}] lru=[{}] keys={}",
+            self.ingredient_index.as_u32(),
+            C::DEBUG_NAME,
+            std::thread::current().id(),
+            current_revision.as_usize(),
+            revisions,
+            self.shards.len(),
+            queue.join(","),
+            lru.join(","),
+            shard.key_map.len(),
+        )
+    }
+
+    #[allow(clippy::too_many_arguments)]
+    fn verif_record_intern(
+        &self,
+        path: &str,
+        shard_index: usize,
+        shard: &IngredientShard,
+        hash: u64,
+        current_revision: Revision,
+        id: Id,
+        stamp: Option<Durability>,
+        before: Option<(Revision, Durability, Id)>,
+        after: (Revision, Durability),
+    ) {
+        let stamp = match stamp {
+            Some(durability) => format!("q{}", durability.index()),
+            None => "out".to_string(),
+        };
+        let before = match before {
+            Some((last_interned_at, durability, old_id)) => format!(
+                "lia_before={} dur_before={} gen_before={}",
+                last_interned_at.as_usize(),
+                durability.index(),
+                old_id.generation()
+            ),
+            None => "lia_before=- dur_before=- gen_before=-".to_string(),
+        };
+        verif_hook::push(format!(
+            "op=intern path={} shard={} hash={} idx={} gen={} stamp={} {} lia_after={} dur_after={} {}",
+            path,
+            shard_index,
+            hash,
+            id.index(),
+            id.generation(),
+            stamp,
+            before,
+            after.0.as_usize(),
+            after.1.index(),
+            self.verif_common(shard, current_revision),
+        ));
+    }
+
+    fn verif_record_mca(
+        &self,
+        result: &str,
+        value: &Value<C>,
+        shard: &IngredientShard,
+        current_revision: Revision,
+        input: Id,
+        lia_before: Revision,
+    ) {
+        // SAFETY: The caller holds the lock for the shard containing the value.
+        let (metadata, durability) =
+            unsafe { (*value.lru.metadata.get(), *value.durability.get()) };
+        verif_hook::push(format!(
+            "op=mca result={} shard={} idx={} gen_in={} gen={} lia_before={} lia_after={} dur={} {}",
+            result,
+            value.shard,
+            input.index(),
+            input.generation(),
+            metadata.id.generation(),
+            lia_before.as_usize(),
+            metadata.last_interned_at.as_usize(),
+            durability.index(),
+            self.verif_common(shard, current_revision),
+        ));
+    }
+}
+
+/// Verification hook H5: the linearisation trace and the shard function.
+#[cfg(salsa_rs_salsa_verif)]
+pub mod verif_hook {
+    use std::hash::{BuildHasher, Hash};
+
+    use rustc_hash::FxBuildHasher;
+
+    static TRACE: std::sync::Mutex<Vec<String>> = std::sync::Mutex::new(Vec::new());
+
+    pub(super) fn push(line: String) {
+        TRACE
+            .lock()
+            .unwrap_or_else(|poisoned| poisoned.into_inner())
+            .push(line);
+    }
+
+    /// Takes (and clears) the records appended since the last call, in lock order per shard.
+    pub fn verif_take_intern_trace() -> Vec<String> {
+        std::mem::take(
+            &mut *TRACE
+                .lock()
+                .unwrap_or_else(|poisoned| poisoned.into_inner()),
+        )
+    }
+
+    /// The number of shards of every interned ingredient.
+    pub fn verif_shard_count() -> usize {
+        super::new_shards().len()
+    }
+
+    /// The shard index `IngredientImpl::shard` computes for a hash.
+    pub fn verif_shard_of_hash(hash: u64) -> usize {
+        let shift = usize::BITS - verif_shard_count().trailing_zeros();
+        ((hash as usize) << 7) >> shift
+    }
+
+    /// The hash the interned ingredient computes for a key.
+    pub fn verif_hash_of<T: Hash>(key: &T) -> u64 {
+        FxBuildHasher.hash_one(key)
+    }
+}
+
 /// Creates the sharded storage outside of the generic [`IngredientImpl::new`] context.
 ///
 /// Keeping this helper non-generic avoids monomorphizing the iterator machinery for every interned
@@ -1159,13 +1360,36 @@ where
         // SAFETY: We hold the lock for the shard containing the value.
         let metadata = unsafe { &mut *value.lru.metadata.get() };
 
+        #[cfg(salsa_rs_salsa_verif)]
+        let verif_lia_before = metadata.last_interned_at;
+
         // The slot was reused.
         if metadata.id.generation() > input.generation() {
+            #[cfg(salsa_rs_salsa_verif)]
+            self.verif_record_mca(
+                "changed",
+                value,
+                &_shard,
+                current_revision,
+                input,
+                verif_lia_before,
+            );
+
             return VerifyResult::changed();
         }
 
         // Validate the value for the current revision to avoid reuse.
         metadata.last_interned_at = current_revision;
+
+        #[cfg(salsa_rs_salsa_verif)]
+        self.verif_record_mca(
+            "unchanged",
+            value,
+            &_shard,
+            current_revision,
+            input,
+            verif_lia_before,
+        );
 
         zalsa.event(&|| {
             let index = self.database_key_index(input);
